@@ -8,6 +8,9 @@ import (
 	"strings"
 
 	"github.com/nspcc-dev/neo-go/pkg/core/fee"
+	"github.com/nspcc-dev/neo-go/pkg/crypto/hash"
+	"github.com/nspcc-dev/neo-go/pkg/smartcontract/callflag"
+	"github.com/nspcc-dev/neo-go/pkg/smartcontract/nef"
 	"github.com/nspcc-dev/neo-go/pkg/util"
 	"github.com/nspcc-dev/neo-go/pkg/vm"
 	"github.com/nspcc-dev/neo-go/pkg/vm/opcode"
@@ -17,7 +20,7 @@ import (
 
 // arg is a primitive item pushed on the evaluation stack before Run.
 type arg struct {
-	kind byte // 'n' null, 'b' bool, 'i' integer, 's' byte string, 'f' buffer
+	kind byte // 'n' null, 'b' bool, 'i' integer, 's' byte string, 'f' buffer, 'x' interop interface
 	b    bool
 	i    *big.Int
 	bs   []byte
@@ -36,6 +39,8 @@ func (a arg) String() string {
 		return "i:" + a.i.String()
 	case 's':
 		return "s:" + hexs(a.bs)
+	case 'x':
+		return "x"
 	default:
 		return "f:" + hexs(a.bs)
 	}
@@ -51,6 +56,8 @@ func (a arg) item() stackitem.Item {
 		return stackitem.NewBigInteger(new(big.Int).Set(a.i))
 	case 's':
 		return stackitem.NewByteArray(append([]byte{}, a.bs...))
+	case 'x':
+		return stackitem.NewInterop(struct{}{})
 	default:
 		return stackitem.NewBuffer(append([]byte{}, a.bs...))
 	}
@@ -65,6 +72,11 @@ func hexs(b []byte) string {
 
 // one case: script + arguments + gas settings
 type vcase struct {
+	// pre: scripts loaded before `script` (the first one is the entry script at the bottom of the
+	// invocation stack); `script` is loaded last and executes first. rv: -1 (LoadScript), 1
+	// (LoadScriptWithHash), 0 (LoadNEFMethod without a return value). The main script is loaded with rv.
+	pre    []preScript
+	rv     int
 	script []byte
 	args   []arg
 	gas    int64 // -1 unlimited; otherwise limit in price-coefficient units
@@ -76,13 +88,26 @@ type vcase struct {
 	ints    []*big.Int
 }
 
+type preScript struct {
+	rv     int
+	script []byte
+}
+
 func (c *vcase) opLine() string {
 	var sb strings.Builder
 	p := 0
 	if c.priced {
 		p = 1
 	}
-	fmt.Fprintf(&sb, "run %d %d %s", c.gas, p, hexs(c.script))
+	if len(c.pre) > 0 {
+		fmt.Fprintf(&sb, "runm %d %d %d", c.gas, p, len(c.pre)+1)
+		for _, s := range c.pre {
+			fmt.Fprintf(&sb, " %d:%s", s.rv, hexs(s.script))
+		}
+		fmt.Fprintf(&sb, " %d:%s", c.mainRv(), hexs(c.script))
+	} else {
+		fmt.Fprintf(&sb, "run %d %d %s", c.gas, p, hexs(c.script))
+	}
 	for _, a := range c.args {
 		sb.WriteByte(' ')
 		sb.WriteString(a.String())
@@ -90,8 +115,30 @@ func (c *vcase) opLine() string {
 	return sb.String()
 }
 
+// mainRv: a single-script case is always loaded by LoadScript (rv -1).
+func (c *vcase) mainRv() int {
+	if len(c.pre) == 0 {
+		return -1
+	}
+	return c.rv
+}
+
+// loadReal loads one script the way the rv says.
+func loadReal(v *vm.VM, rv int, b []byte) {
+	switch rv {
+	case 1:
+		v.LoadScriptWithHash(b, hash.Hash160(b), callflag.NoneFlag)
+	case 0:
+		v.LoadNEFMethod(&nef.File{Script: b}, nil, util.Uint160{}, hash.Hash160(b), callflag.NoneFlag, false, 0, -1, nil, nil, false)
+	default:
+		v.LoadScript(b)
+	}
+}
+
 // result of the real VM
 type vres struct {
+	ran    [256]bool // opcodes the VM started to execute in this run (trace runs only)
+	lastOp int
 	obs    string // canonical observation line
 	halt   bool
 	fault  bool
@@ -132,9 +179,13 @@ func execReal(c *vcase) (res vres) {
 				execOK[last]++
 			}
 			last = int(op)
+			res.ran[last] = true
 		})
 	}
-	v.LoadScript(c.script)
+	for _, s := range c.pre {
+		loadReal(v, s.rv, s.script)
+	}
+	loadReal(v, c.mainRv(), c.script)
 	for _, a := range c.args {
 		v.Estack().PushItem(a.item())
 	}
@@ -146,6 +197,7 @@ func execReal(c *vcase) (res vres) {
 			execOK[last]++
 		}
 	}
+	res.lastOp = last
 	res.gas = v.GasConsumed()
 	res.refs = v.VerifRefs()
 	switch {
